@@ -43,6 +43,9 @@ pub const TS_SNIPPETS: &[&str] = &[
   "if ((a == b) == c) {\n  foo(foo(1, 2), 3);\n}",
   "// ast-grep-ignore: no-console\nconsole.log(2);",
   "function later() {\n  foo(1, () => {\n    first();\n\n    second();\n  });\n}",
+  "function hello(name: string) {\n  console.log(name);\n}",
+  "let first = 1, second = 2",
+  "if (a == b) foo(a, b)\nelse bar(1, 2)",
 ];
 
 pub const JS_SNIPPETS: &[&str] = &[
@@ -70,6 +73,9 @@ pub const JS_SNIPPETS: &[&str] = &[
   "alert(123);",
   "// ast-grep-ignore: no-console\nconsole.log(2);",
   "function later() {\n  foo(1, () => {\n    first();\n\n    second();\n  });\n}",
+  "function hello(name) {\n  console.log(name);\n}",
+  "var first = 1, second = 2",
+  "if (a == b) foo(a, b)\nelse bar(1, 2)",
 ];
 
 pub const PY_SNIPPETS: &[&str] = &[
@@ -310,8 +316,10 @@ pub const CORPORA: &[LangCorpus] = &[
       ("console.log($A)", "log($A)"),
       ("let $A = $B", "const $A = $B"),
       ("foo($A, $B)", "foo(\n  $B,\n  $A\n)"),
+      ("foo($A, $B)", "bar(\n  $B,\n      $B,\n  $A\n)"),
       ("debugger", ""),
       ("$A == $B", "$A === $B"),
+      ("if ($C) $B", "if (!($C)) $B"),
     ],
     probes: &["$A + $B", "$F($$$ARGS)", "console.log($$$A)"],
   },
@@ -324,7 +332,9 @@ pub const CORPORA: &[LangCorpus] = &[
       ("console.log($A)", "log($A)"),
       ("var $A = $B", "let $A = $B"),
       ("foo($A, $B)", "foo(\n  $B,\n  $A\n)"),
+      ("foo($A, $B)", "bar(\n  $B,\n      $B,\n  $A\n)"),
       ("$A == $B", "$A === $B"),
+      ("if ($C) $B", "if (!($C)) $B"),
     ],
     probes: &["$A + $B", "$F($$$ARGS)", "console.log($$$A)"],
   },
